@@ -25,9 +25,16 @@ CHECKS = {
               "initially and across every API call (any PDU, any history: loss, duplication, reordering, corruption, rejection) "
               "guarantees that every successful Transaction-Finished indication and every successful Finished PDU is produced from "
               "a state whose destination file verifies against the recorded EOF checksum and size, and that the file is not touched "
-              "afterwards. PARTIAL in one respect: the two-sided statement 'identical to the SOURCE file' composes this with the "
-              "sender (C07/C09) on paper; the check evaluates it on the implementation (file read back at every success report, "
-              "either side, drop/dup/delay/bit-flip/write-reject schedules, any number of faults).",
+              "afterwards. TWO-SIDED (props/C01c.v, 3 700 lines of proof): over the executable two-handler system of System.v, for EVERY "
+              "fault schedule (any number of drops, duplications, delays of any PDU in either direction), every file, both modes, "
+              "with or without closure, both NAK modes, after any number of scheduler rounds: if the receiver has reported success, the "
+              "destination file is byte-identical to the SOURCE file or has the same length and the same CRC (genuine collision) - "
+              "composing the sender invariant (every queued File Data / EOF / Metadata PDU is genuine for the source file), the link, "
+              "the receiver invariant and the duties of the surrounding entity; and the SENDER half (props/C01s.v): in acknowledged mode or with "
+              "closure, a success in the sender's log implies the same about the destination file at that moment. Payload corruption and write rejection are not in "
+              "System.v's link: for those the receiver-side statement (C01b, arbitrary PDU contents) applies and the check evaluates "
+              "the two-sided statement on the implementation (file read back at every success report, either side, "
+              "drop/dup/delay/bit-flip/write-reject schedules, any number of faults; the receiver's table may disagree with the sender's).",
               "6/C01"),
     "C02": _c("Coq: unbounded theorems over the executable two-handler system (induction over the file) for unacknowledged, unacknowledged+closure and acknowledged mode + kernel-checked exhaustive evaluation (1152 transfers) + correspondence",
               "Proof (props/C02.v, C02u.v, C02c.v, C02a.v): UNBOUNDED - for every file content and length, segment length >= 1, id / "
@@ -35,14 +42,16 @@ CHECKS = {
               "byte-identical with one successful Transaction-Finished per side, no fault event and no API error, in unacknowledged "
               "mode, unacknowledged mode with closure and acknowledged mode (timer intervals > 0). BOUNDED INSTANCE in addition - "
               "vm_compute inside the kernel evaluates 2 modes x closure x 4 checksum types x 4 segment lengths x NAK mode x 9 sizes. "
-              "Destination given as directory / already existing, arbitrary pacing and consecutive transfers on one handler pair are "
-              "covered by the oracle on the implementation.", "6/C02"),
+              "DESTINATION SHAPES (props/C02d.v): the same three theorems for an arbitrary destination filestore and every path shape the "
+              "code distinguishes (existing file, existing directory -> dir/basename, absent with existing parent at any depth), with "
+              "the frame (all other paths unchanged). Arbitrary pacing and consecutive transfers (incl. metadata-only ones) on one "
+              "handler pair are covered by the oracle on the implementation.", "6/C02"),
     "C03": _c("Coq: kernel-checked exhaustive evaluation of all schedules with K<=2 link faults (the bound the property names) and K=3 on a small file + unbounded retry/NAK lemmas (C04/C06/C08) + correspondence",
               "PARTIAL proof (props/C03.v): BOUNDED INSTANCES - every schedule of <=2 link faults (drop/duplicate/delay of any PDU "
               "occurrence, either direction) on files of 0/5/9 bytes, both NAK modes, closure on/off, limits K+3, and every schedule "
               "of 3 faults on a 5-byte file, evaluated inside the kernel on System.v: delivered, both users successful, both idle. "
               "UNBOUNDED for K = 1 (props/C03u.v, C03m.v): for every file, every position of ONE lost File Data PDU, and for the lost "
-              "Metadata PDU, and (C03r) every lost control PDU (EOF, ACK (EOF), Finished, ACK (Finished)), and (C03d) any one duplicated PDU, immediate and deferred NAK mode, the transfer is delivered byte-identical. The general liveness theorem (all K, all fault "
+              "Metadata PDU, and (C03r) every lost control PDU (EOF, ACK (EOF), Finished, ACK (Finished)), and (C03d) any one duplicated PDU, immediate and deferred NAK mode, the transfer is delivered byte-identical; (C03y) any one DELAYED control PDU or EOF for every delay, a delayed File Data PDU for every delay in deferred NAK mode (C03y + C03z; immediate mode: delay of one round, or >= 2 rounds for all but the last-but-one PDU), Metadata delayed by one round. The general liveness theorem (all K, all fault "
               "kinds, all interleavings) is not proved.", "6/C03"),
     "C04": _c("Coq proof (case analysis of the three retry procedures, for all limits N and intervals) + correspondence + virtual-clock oracle",
               "Proof (props/C04.v): EOF-awaiting-ACK, Finished-awaiting-ACK and the NAK procedure: nothing before expiry; expiry k<N "
@@ -60,8 +69,12 @@ CHECKS = {
               "PDU within max_packet_len, scope (0, EOF size); gap detection / removal step lemmas; nothing missing => no NAK. "
               "History level (C06b): for EVERY arrival order and duplication of the tiles of a file (fixed segment length) the tracker "
               "denotes exactly the bytes below the highest offset received that were not received, stays well-formed and never raises. "
-              "Not proved: the same for arbitrarily overlapping segments (c06_tracker_never_forgets covers them: total, sound, possibly over-approximating) and across the EOF/deferred phase "
-              "(evaluated by the oracle on every explored history).", "6/C06"),
+              "For arbitrarily overlapping segments c06_tracker_never_forgets: total, sound, possibly over-approximating. END TO END (props/C06c.v), "
+              "through the real entry point state_machine from a fresh handler: Metadata, ANY history of tiles (any order, duplication, "
+              "subset; both NAK modes), EOF (no error): the EOF call queues the ACK (EOF), the next call the NAK sequence whose requests "
+              "denote exactly the bytes of [0, size) not received, ascending with real gaps, inside [0, size), no (0,0), scope (0, size), "
+              "every PDU within max_packet_len; nothing missing => no NAK and (checksum passing) the Finished PDU; EOF as first PDU => "
+              "(0,0) then (0,size); after the NAK timer expiry and further tiles the re-issue again requests exactly what is still missing.", "6/C06"),
     "C07": _c("Coq proof by induction over the tiles of the file (unbounded: all contents, sizes, configurations) + correspondence + stream oracle",
               "Proof (props/C07.v): for every file and configuration with effective segment length >= 1 the calls of an accepted put "
               "emit exactly [Metadata]; one File Data PDU per call tiling [0,size) ascending; [EOF(size, checksum)], all with one "
@@ -107,12 +120,22 @@ CHECKS = {
     "C14": _c("Coq proof (dispatch lemmas for every condition/handler code on both handlers; table read from mib.py each run) + correspondence + callback oracle",
               "Proof (props/C14.v): declare_fault calls exactly the configured callback once with (id, condition, progress) and ignores / "
               "cancels (condition into EOF/Finished) / abandons (idle, nothing sent); no callback without transaction id; conditions "
-              "outside the table are refused, table unchanged; default table facts. Fixed findings: F15, F22, F25-F27 (see DESIGN.md 14).",
+              "outside the table are refused, table unchanged; default table facts. WHOLE FSM (props/C14b.v): every fault callback that ANY API "
+              "call of either handler delivers carries the transaction id of that call and the kind the table gives for its condition (or "
+              "is the abandon callback of a fault during a cancel exchange, characterised exactly); an abandon callback is the newest event "
+              "of its call, at most one, handler idle and fresh afterwards, nothing queued earlier is dropped; the sender delivers at most "
+              "one fault callback per call; the receiver's Transaction-Finished after a cancel callback reports that condition. "
+              "Fixed findings: F15, F22, F25-F27 (see DESIGN.md 14).",
               "6/C14"),
     "C15": _c("Coq proof (gating invariant over both whole state machines by compositional reasoning + parameter lemmas) + correspondence + indication oracle",
               "Proof (props/C15.v): every event any call adds is gated by its switch (all inputs, all states); Metadata-Recv / "
               "File-Segment-Recv parameters equal the PDU's; Transaction-Finished equals the Finished PDU of that completion; the "
-              "sender copies the Finished PDU; originating id surfaced unless a proxy put response is present. Fixed finding F21 (the cancelled unacknowledged sender now reports; c15_source_cancel_unacked_reports).",
+              "sender copies the Finished PDU; originating id surfaced unless a proxy put response is present. CAUSAL ORDER (props/C15c.v): an "
+              "order automaton over the event log accepts the log of EVERY history of API calls of either handler (sender: Transaction, "
+              "EOF-Sent*, at most one Transaction-Finished, ids of the latest Transaction, strictly increasing sequence numbers; receiver: "
+              "every event carries the id of the transaction in progress, the only receive indication of a call is that of its PDU with "
+              "the PDU's parameters, receive indications precede Transaction-Finished, Metadata-Recv at most once, after "
+              "Transaction-Finished only Transaction-Finished / fault callbacks until idle). Fixed finding F21 (the cancelled unacknowledged sender now reports; c15_source_cancel_unacked_reports).",
               "6/C15"),
     "C16": _c("Coq proof of representation independence of both handlers w.r.t. the filestore (partial: runtime half by the tie) + native/in-memory/decoy differential run with host-access audit",
               "PARTIAL: the theorem (props/C16.v) shows the model handlers observe the filestore only through its interface. That the "
